@@ -126,8 +126,12 @@ func TestVerif_C06_Bookkeeping(t *testing.T) {
 			rt.Fatalf("harness: %v", err)
 		}
 		defer s.close()
-		if err := s.ag.start(s.peer.ufrag, s.peer.pwd); err != nil {
-			rt.Fatalf("harness: %v", err)
+		// candidates may be added (and the agent restarted) before it is started
+		lateStart := rapid.IntRange(0, 3).Draw(rt, "lateStart") == 0
+		if !lateStart {
+			if err := s.ag.start(s.peer.ufrag, s.peer.pwd); err != nil {
+				rt.Fatalf("harness: %v", err)
+			}
 		}
 		conn := &Conn{agent: s.ag.a}
 		peerRole := "controlled"
@@ -250,7 +254,7 @@ func TestVerif_C06_Bookkeeping(t *testing.T) {
 		for i := 0; i < nOps; i++ {
 			op := rapid.SampledFrom([]string{
 				"addLocal", "addLocal", "addRemote", "addRemote", "addRemote", "inboundRequest", "inboundRequest", "tick", "answer", "answer",
-				"nominate", "silenceFail", "restart", "writeToPair", "addRemoteTCP", "connect", "connect",
+				"nominate", "silenceFail", "restart", "writeToPair", "addRemoteTCP", "connect", "connect", "start",
 			}).Draw(rt, "op")
 			if (op == "restart" || op == "silenceFail") && rapid.IntRange(0, 2).Draw(rt, "really") != 0 {
 				op = "tick"
@@ -258,6 +262,14 @@ func TestVerif_C06_Bookkeeping(t *testing.T) {
 			where := fmt.Sprintf("step %d (%s)", i, op)
 			s.purgeNonRequests()
 			switch op {
+			case "start":
+				if s.ag.started {
+					continue
+				}
+				if err := s.ag.start(s.peer.ufrag, s.peer.pwd); err != nil {
+					rt.Fatalf("harness: %v", err)
+				}
+				s.ops = append(s.ops, "start")
 			case "addLocal":
 				if nextLocal >= len(localSpecs) || s.ag.state() == ConnectionStateFailed {
 					continue
@@ -455,6 +467,9 @@ func TestVerif_C06_Bookkeeping(t *testing.T) {
 				if len(v.pairs) >= 2 {
 					lbl["restart-with-several-pairs"] = true
 				}
+				if !s.ag.started && len(v.pairs) > 0 {
+					lbl["restart-before-start-with-pairs"] = true
+				}
 				old := append([]*simSock{}, s.ag.socks...)
 				if err := s.ag.restart(); err != nil {
 					rt.Fatalf("harness: restart: %v", err)
@@ -465,7 +480,9 @@ func TestVerif_C06_Bookkeeping(t *testing.T) {
 				s.ops = append(s.ops, "restart")
 				emptyCheck("restart", old)
 				reset()
-				_ = s.ag.a.SetRemoteCredentials(s.peer.ufrag, s.peer.pwd)
+				if s.ag.started {
+					_ = s.ag.a.SetRemoteCredentials(s.peer.ufrag, s.peer.pwd)
+				}
 			}
 			invariants(where)
 		}
@@ -478,7 +495,7 @@ func TestVerif_C06_Bookkeeping(t *testing.T) {
 		for l := range lbl {
 			labels = append(labels, l)
 		}
-		nontrivial := lbl["prflx-then-signalled"] || lbl["restart-with-several-pairs"] || lbl["failed-with-several-pairs"] || lbl["filtered-prflx"]
+		nontrivial := lbl["prflx-then-signalled"] || lbl["restart-before-start-with-pairs"] || lbl["restart-with-several-pairs"] || lbl["failed-with-several-pairs"] || lbl["filtered-prflx"]
 		desc := fmt.Sprintf("controlling=%v rejected=%v ops=%s", controlling, rejected, strings.Join(s.ops, "; "))
 		st.Record(vfHashStr(desc), nontrivial, labels...)
 		if nontrivial && st.WantSample() {
